@@ -51,7 +51,7 @@ static struct uref g_in_copy;                   /* ... and what it held when it 
  * flag bits in `flag_mask`; pipes that do change something define VP_CONTENT_OK with the exact new value */
 static inline bool spec_same_uref(const struct uref *a, const struct uref *b, unsigned may, uint64_t flag_mask)
 {
-    return a->ubuf == b->ubuf && a->udict == b->udict && a->mgr == b->mgr && ((a->flags ^ b->flags) & ~flag_mask) == 0 &&
+    return ((may & VF_UBUF) || a->ubuf == b->ubuf) && a->udict == b->udict && a->mgr == b->mgr && ((a->flags ^ b->flags) & ~flag_mask) == 0 &&
            ((may & VF_DATE_SYS) || a->date_sys == b->date_sys) && ((may & VF_DATE_PROG) || a->date_prog == b->date_prog) &&
            ((may & VF_DATE_ORIG) || a->date_orig == b->date_orig) && a->dts_pts_delay == b->dts_pts_delay && a->cr_dts_delay == b->cr_dts_delay &&
            ((may & VF_RAP_DELAY) || a->rap_cr_delay == b->rap_cr_delay) && a->priv == b->priv;
